@@ -6,7 +6,7 @@
 //     (rm <charset> dec|enc|rep x<bytes>)   encodings.<charset>.Decode / Encode / EncodeReplaceUnknown
 //     (unq x<bytes>)                        internal/strings.Unquote
 //     (auth <len> <hashOk> <valid>)         MySQLDb.ValidateHash with a response of <len> bytes: accepted | denied | crash
-//  2. statement-level cases `(sql <stream> x<text>)`: the statement is run through Engine.Query and its
+//  2. statement-level cases `(sql <stream> x<text> [x<history>])`: the statement is run through Engine.Query and its
 //     rows are read, under recover and a timeout, then `SELECT 1` must still work on the session.
 //     The observation is `returns` (a result or an error came back through the API); a panic, a hang
 //     or a session that stopped answering is reported to the oracle stream with the crash site (first
@@ -53,6 +53,13 @@ func main() {
 		}
 		return
 	}
+	if len(os.Args) > 1 && os.Args[1] == "script" {
+		if err := script(); err != nil {
+			fmt.Fprintln(os.Stderr, "script failed:", err)
+			os.Exit(3)
+		}
+		return
+	}
 	hx.Main(extract, run)
 }
 
@@ -66,6 +73,9 @@ type world struct {
 }
 
 var connID uint32 = 500
+
+// debugging aid: C10_TRACE=1 prints every statement with what came back
+var traceStmts = os.Getenv("C10_TRACE") != ""
 
 const baseSchema = `
 CREATE TABLE t0 (id INT PRIMARY KEY, a INT, b VARCHAR(20), c DECIMAL(10,2), d DATETIME, j JSON, KEY ia (a));
@@ -356,6 +366,9 @@ func (r *sqlRunner) stmt(stream, q string) outcome {
 	}
 	r.out.Pending(payload)
 	o := r.w.run(q, r.timeout)
+	if traceStmts {
+		fmt.Fprintf(os.Stderr, "TRACE %s\t%s\t%s\t%s\n", stream, o.class, trunc(hx.OneLine(o.msg), 150), hx.OneLine(q))
+	}
 	obs := "returns"
 	id := r.out.Case(payload, obs, o.class == "ok" && o.rows > 0)
 	r.out.Pending("")
@@ -415,7 +428,7 @@ func run(a hx.RunArgs) (err error) {
 	r := hx.NewRand(a.Seed).Fork()
 	rc, rm, rn, rg := r.Fork(), r.Fork(), r.Fork(), r.Fork()
 	only := os.Getenv("C10_ONLY") // debugging aid: run a single statement stream
-	want := func(stream string) bool { return only == "" || only == stream }
+	want := func(stream string) bool { return only == "" || strings.Contains(","+only+",", ","+stream+",") }
 
 	// ---- 1. modelled cores ------------------------------------------------------------------
 	encs := map[string]encodings.Encoder{}
@@ -509,6 +522,10 @@ func run(a hx.RunArgs) (err error) {
 		}
 	}
 
+	// Locate.Eval over strings whose case mapping changes the length; stored-procedure histories (cores2.go)
+	locCases(out, hx.NewRand(a.Seed*1000003+0xc10c).Fork(), a.Thorough)
+	rpCases(out, hx.NewRand(a.Seed*1000003+0xc10d).Fork(), a.Thorough)
+
 	// ---- 2. statements ----------------------------------------------------------------------
 	sr := &sqlRunner{out: out, w: newWorld(false), timeout: 30 * time.Second}
 	// 2a. witnesses of the listed findings (and of other properties' crash findings), each on a fresh engine
@@ -516,8 +533,8 @@ func run(a hx.RunArgs) (err error) {
 		if !want("witness") {
 			break
 		}
-		if wt.fatal {
-			continue // run at the very end: it kills this process
+		if wt.fatal || wt.hang {
+			continue // run at the very end: a fatal witness kills this process, a hanging one keeps burning CPU and memory in its goroutine
 		}
 		sr.w = newWorld(wt.accounts)
 		for _, q := range wt.setup {
@@ -525,11 +542,7 @@ func run(a hx.RunArgs) (err error) {
 				return fmt.Errorf("witness setup %q: %s %s", q, o.class, o.msg)
 			}
 		}
-		if wt.hang {
-			sr.timeout = 8 * time.Second
-		}
 		sr.stmt("witness", wt.stmt)
-		sr.timeout = 30 * time.Second
 	}
 	// 2b. the statement corpus harvested from the other harnesses, in file order, one engine per file
 	corpus, err := loadCorpus()
@@ -597,6 +610,30 @@ func run(a hx.RunArgs) (err error) {
 			sr.stmt("sqlgen", p.SQL(q))
 		}
 		sr.setup = ""
+	}
+	// 2h. built-in functions and operators over edge strings (strfn.go); own generator so that the
+	//     older streams keep their sample
+	if want("strfn") {
+		strfn(sr, hx.NewRand(a.Seed*1000003+0xc10a).Fork(), a.Thorough)
+	}
+	// 2i. session-state sequences: settings, stored objects, settings, uses and listings (sess.go)
+	if want("sess") {
+		runSess(sr, hx.NewRand(a.Seed*1000003+0xc10b).Fork(), a.Thorough)
+	}
+	// 2g'. witnesses that are expected not to return (short timeout; their goroutine goes on running)
+	for _, wt := range witnesses {
+		if !wt.hang || wt.fatal || !want("witness") {
+			continue
+		}
+		sr.w = newWorld(wt.accounts)
+		for _, q := range wt.setup {
+			if o := sr.w.run(q, sr.timeout); o.class == "crash" || o.class == "timeout" {
+				return fmt.Errorf("witness setup %q: %s %s", q, o.class, o.msg)
+			}
+		}
+		sr.timeout = 8 * time.Second
+		sr.stmt("witness", wt.stmt)
+		sr.timeout = 30 * time.Second
 	}
 	// 2g. witnesses that end in an unrecoverable fatal error: last, the parent reports them
 	for _, wt := range witnesses {
@@ -688,8 +725,14 @@ func parent(a hx.RunArgs) error {
 		"strings.Unquote on every string over {\\,u,d,8,0,a,\"} up to a length bound + random, MySQLDb.ValidateHash for every response length 0..40) and " +
 		"statement-level cases through Engine.Query + row iteration + `SELECT 1` afterwards: witnesses of listed crash findings, the statement corpus harvested from " +
 		"every other harness (corpus/C10-statements.txt), every built-in function x argument vectors over a pool of edge values, token-level mutants of corpus " +
-		"statements, keyword/byte noise, sqlgen queries with all printer options; a function-level case is non-trivial when the outcome is not `ok`, a statement-level " +
-		"case when the statement returned at least one row"
+		"statements, keyword/byte noise, sqlgen queries with all printer options, stream strfn (every built-in function and a list of string operators / clauses over " +
+		"edge STRINGS — characters whose case mapping changes the UTF-8 length, title-case / combining / astral characters — as literals and as the rows of a table, " +
+		"with related needle / haystack / position arguments; deterministic part + seeded random part), stream sess (scripts on one session: sql_mode / character set / " +
+		"autocommit / current-database settings, stored objects of 18 kinds built from option-dependent spellings, other settings, uses and information_schema / SHOW " +
+		"listings; deterministic product + seeded random scripts; each case carries the state-changing statements that ran before it); further function-level cores: " +
+		"Locate.Eval on literals over an alphabet of length-changing characters (every haystack up to a length bound x needles taken from it x positions) and " +
+		"stored-procedure histories SET sql_mode / CREATE PROCEDURE / CALL / information_schema.routines (every mode pair x body + random); a function-level case is " +
+		"non-trivial when the outcome is not `ok` (loc: not 0; rp: a CREATE failed), a statement-level case when the statement returned at least one row"
 	f, err := os.Open(a.OutDir + "/events.jsonl")
 	if err != nil {
 		return fmt.Errorf("child wrote no events: %v / %v", err, runErr)
